@@ -252,3 +252,19 @@ Theorem c07_check_race_sound : forall v crashed served,
   check (mkRace v crashed served) = [] <-> crashed = false /\ served = true.
 Proof. exact check_race_sound. Qed.
 Print Assumptions c07_check_race_sound.
+
+(* a wake-up of an instance's reader never follows the close of that instance: Done marks
+   the token finished, and a message for a finished token is dropped without handler call *)
+Theorem c07_done_marks_finished : forall fx s k,
+  leaked s = [] -> mem_tok k (insts s) = true ->
+  r_out (step fx s (LocalDone k)) = Ok /\
+  mem_tok k (finished (r_state (step fx s (LocalDone k)))) = true.
+Proof. exact done_marks_finished. Qed.
+Print Assumptions c07_done_marks_finished.
+
+Theorem c07_no_wakeup_after_close : forall pm t s ev,
+  leaked s = [] -> mem_tok (p_to pm) (finished s) = true ->
+  exists m', deliver_hit pm t (mkM s [] ev) = Ret tt m' /\
+             forall k f, In (EDeliver k f) (evs m') -> In (EDeliver k f) ev.
+Proof. exact no_wakeup_after_close. Qed.
+Print Assumptions c07_no_wakeup_after_close.
